@@ -139,7 +139,15 @@ func genCase(t *rapid.T) Case {
 		}
 	}
 	var minX, minY float32
-	switch rapid.IntRange(0, 2).Draw(t, "origin") {
+	switch rapid.IntRange(0, 4).Draw(t, "origin") {
+	case 3: // the box ends exactly at the origin, on both axes or on one
+		minX, minY = -w, -h
+	case 4:
+		if rapid.Bool().Draw(t, "endsx") {
+			minX, minY = -w, float32(rapid.IntRange(-100, 100).Draw(t, "miny"))
+		} else {
+			minX, minY = float32(rapid.IntRange(-100, 100).Draw(t, "minx")), -h
+		}
 	case 0:
 		minX, minY = -w/2, -h/2
 	case 1:
